@@ -106,6 +106,10 @@ def _(c):
     c.requires("other > 0")
     c.ensures("counts(result) == {k: n * other for k, n in counts(self).items()}", "counts-scaled")
     c.ensures("counts(self) == old(counts(self))", "operand-unchanged")
+    # the product is a substance of its own (whatever the factor, 1 included): a later add() on it or on the operand acts on one only
+    c.ensures("not same_object(result, self)", "product-is-a-new-substance")
+    c.fresh("list(result.components.values())", "product-shares-no-species-object-with-the-operand", each=True)
+    c.modifies()
     c.no_raise()
 
 
@@ -144,7 +148,8 @@ if TIER != "thorough":
     MIXES = MIXES[:3]
 
 
-STRING_MIXES = [(["H2O", "NaCl"], ["0.2", "0.8"]), (["N2", "O2", "Ar"], ["78.084", "20.946", "0.934"])]
+STRING_MIXES = [(["H2O", "NaCl"], ["0.2", "0.8"]), (["N2", "O2", "Ar"], ["78.084", "20.946", "0.934"]),
+                (["H2O", "NaCl", "Ar"], ["2.5e-12", "1.25e-12", "6.25e-12"])]   # only the ratios matter, however small the amounts
 
 
 @spec
@@ -207,6 +212,18 @@ for mode, label in (("NUMBER_FRACTION", "number"), ("MASS_FRACTION", "mass")):
                 b.call(b.getattr(m, "data_composite"), components=b.list([mix[0]]), quantity=False)
                 return dict(args=[m], kwargs=dict(quantity=False), env=dict(ps=ps, ms=[_mass(s, True) for s in mix], keys=list(mix)))
             c.scenario("+".join(mix) + "[after-a-table-of-a-selection]", pre_sel)
+        # every amount multiplied by one common factor (scalar * material): the fractions are those of the amounts given
+        for mix in [m for m in MIXES if len(m) >= 2][:2]:
+            for nat in (True, False):
+                def pre_c(b, mix=mix, nat=nat):
+                    ps = [b.real(f"p{i}") for i in range(len(mix))]
+                    f = b.real("f")
+                    b.assume_rel(f, ">", 0)
+                    norm = b.getattr(b.cls(NORM), mode)
+                    m = b.new(MAT, b.dict({s: p for s, p in zip(mix, ps)}), natural=nat, norm_type=norm)
+                    m = b.call(b.getattr(m, "__rmul__"), f)
+                    return dict(args=[m], kwargs=dict(quantity=False), env=dict(ps=ps, ms=[_mass(s, nat) for s in mix], keys=list(mix)))
+                c.scenario("+".join(mix) + "[times-a-common-factor]" + ("" if nat else "[most-abundant-isotopes]"), pre_c)
         # the same mixtures written as an expression '<p> <substance> ...' (each blank is a '+' of materials): literal proportions
         for mix, lit in STRING_MIXES:
             for nat in (True, False):
@@ -252,6 +269,8 @@ for opname in ("__add__", "__rmul__"):
         c.requires("p0 > 0 and p1 > 0")
         if opname == "__add__":
             c.ensures("list(result.components.keys()) == ['H2O', 'NaCl'] and [comp.proportion for comp in result.components.values()] == [p0, p1]", "one-component-per-operand-substance-with-its-amount")
+        else:
+            c.ensures("list(result.components.keys()) == ['H2O'] and [comp.proportion for comp in result.components.values()] == [p0 * p1]", "every-amount-times-the-factor")
         c.ensures("result.natural == self.natural and result.norm_type == self.norm_type", "isotope-mode-and-normalisation-carried-over")
         c.ensures("all([near(comp.component_mass.value('Da'), m) for comp, m in zip(result.components.values(), ms)])", "component-masses-in-the-same-isotope-mode")
         c.fresh("list(result.components.values())", "result-shares-no-component-object-with-an-operand", each=True)
@@ -310,6 +329,32 @@ def _(c):
     c.requires("n > 0")
     c.ensures("near(self.mass_density.value('g/cm3'), n * nf * mf)", "mass-density-is-n-times-formula-mass")
     c.ensures("near(self.number_density.value('cm-3'), n * nf)", "number-density-kept")
+    c.no_raise()
+
+
+# the stored densities are quantities: a caller may show one of them in another unit (Quantity.to converts in place), or go on using
+# the quantity it passed in -- the table is computed from the quantities, in whatever unit they are shown
+SHOWN = [("number_density", "m-3"), ("number_density", "l-1"), ("mass_density", "kg/m3"), ("mass", "kg"), ("own-argument", "m-3")]
+
+
+@contract("materials/matter.py::Matter.data_matter", ["C12"], name="Matter.data_matter[after-a-density-was-shown-in-another-unit]")
+def _(c):
+    c.bound = "two substances; number density and volume symbolic; one stored quantity (or the caller's own argument) converted in place before the table is read"
+    c.chunk = 2
+    c.assume_nonzero_divisors = True
+    for text in ["H2O", "NaCl"]:
+        for attr, unit in SHOWN:
+            def pre(b, text=text, attr=attr, unit=unit):
+                n, vol = b.real("n"), b.real("vol")
+                nq = b.new(QTY, n, "cm-3")
+                s = b.new(SUB, text, number_density=nq, volume=b.new(QTY, vol, "cm3"))
+                b.call(b.getattr(nq if attr == "own-argument" else b.getattr(s, attr), "to"), unit)
+                cnt = sorted(M.expand_text(text).items())
+                return dict(args=[s], kwargs=dict(quantity=False), env=dict(n=n, vol=vol, mf=_mass(text) * DA_G, cnt=cnt, sm=[M.species(k)[0] * DA_G for k, _ in cnt]))
+            c.scenario(f"{text} {attr}->{unit}", pre)
+    c.requires("n > 0 and vol > 0")
+    c.ensures("all([near(result[k].data()['n'], a * n) and near(result[k].data()['rho'], a * m * n) and near(result[k].data()['N'], a * n * vol) and near(result[k].data()['M'], a * m * n * vol) for (k, a), m in zip(cnt, sm)])", "component-rows-from-amount-n-and-volume")
+    c.ensures("near(result['sum'].data()['rho'], n * mf) and near(result['sum'].data()['M'], n * mf * vol)", "rows-add-up-to-rho-and-the-total-mass")
     c.no_raise()
 
 
